@@ -36,7 +36,10 @@ class DPT2ByteUnsigned(DPTNumeric):
     def to_knx(cls, value: int | float) -> DPTArray:
         """Serialize to KNX/IP raw data."""
         try:
-            if not cls._test_boundaries(int(value)):
+            if not cls._test_boundaries(int(value)) or (
+                # int() truncates towards zero - a fraction beyond a limit is out of range
+                isinstance(value, float) and not cls._test_boundaries(value)  # type: ignore[arg-type]
+            ):
                 raise ValueError("Value out of range")
             # the nearest representable value - not the next lower one
             knx_value = round(int(value) / cls.resolution)
